@@ -35,6 +35,7 @@ def run(ctx):
     c12_1(ctx)
     c12_1_verdict(ctx)
     c12_proofgen(ctx)
+    c12_more_exact(ctx)
     c12_2(ctx)
     c12_3(ctx)
     c12_4(ctx)
@@ -451,3 +452,31 @@ def c12_proofgen(ctx):
         ctx.ob(R, "pad-middles:bit-by-bit", rows == exp,
                "pad_middles_for_proof_gen emits one MIDDLE per shared bit with EMPTY on the side the leaves are not on, and the two terminals "
                "at the first differing bit", found=sorted(map(str, rows ^ exp))[:2] or None, where=b.fn.sp)
+
+
+def c12_more_exact(ctx):
+    """(a) MerkleSet::generate_proof forwards the lookup's failure: a tree rebuilt from a proof that runs into a truncated node
+    on the item's route has *no* answer (error), never 'not included';  (b) the node hash shared by both root computations and
+    the proof parser is one unconditional SHA-256 over 30 zero bytes, the two type bytes and the two child hashes -- no child
+    type combination is special-cased (a parser-reachable (Empty, Terminal) shortcut would let a forged node take any hash)."""
+    R = "C12.1"
+    b = U.body(ctx, R, MT + "MerkleSet::generate_proof")
+    if b:
+        rows = set()
+        for ev, ex in P.enumerate_paths(b):
+            cs = frozenset((str(apnf.N(t)).split(",")[0].strip("('"), str(l[1])) for t, l in P.conds(ev))
+            rows.add((ex[0], P.ret_class(ev) if ex[0] == "return" else "", cs))
+        g = "MerkleSet::generate_proof_impl"
+        exp = {("return", "Ok", frozenset({(".from_proof", "False"), (g, "True")})), ("return", "Ok", frozenset({(".from_proof", "True"), (g, "True")})),
+               ("return", "Err", frozenset({(g, "False")}))}
+        ctx.ob(R, "generate_proof:forwards-lookup-errors", rows == exp,
+               "generate_proof = generate_proof_impl(..)? then (found, proof bytes or empty for proof-built trees); lookup errors are errors",
+               found=sorted(map(str, rows ^ exp))[:3] or None, where=b.fn.sp)
+    R = "C12.2"
+    b = U.body(ctx, R, MS + "hash")
+    if b:
+        rows = [(ex[0], len(P.conds(ev)), str(apnf.N(P.ret_of(ev))) if ex[0] == "return" else "") for ev, ex in P.enumerate_paths(b)]
+        ok = len(rows) == 1 and rows[0][0] == "return" and rows[0][1] == 0 and rows[0][2].startswith("('Sha256::finalize', ") and rows[0][2].count("'Sha256::update'") == 4
+        sw = [x for x in range(b.n) if x in b.reach and b.blocks[x]["t"]["k"] == "switch"]
+        ctx.ob(R, "hash:unconditional", ok and not sw, "merkle_set::hash is a single path: sha256(prefix || types || left || right) for every type combination",
+               found=[r[2][:80] for r in rows][:2], where=b.fn.sp)
